@@ -154,7 +154,7 @@ def body_E1(ctx):
             logger.validate()  # validating twice must be harmless
         logger.reset()
     kind = ["message", "action-ok", "action-failed", "action-failed-extractor", "traceback", "nested"][ctx.choose(6, "what is logged")]
-    dev = ["none", "drop", "add", "wrong-type", "validator-rejected", "not-encodable", "non-str-key"][ctx.choose(7, "deviation")]
+    dev = ["none", "drop", "add", "wrong-type", "validator-rejected", "not-encodable", "non-str-key", "not-encodable-nested"][ctx.choose(8, "deviation")]
 
     class AppErr(Exception):
         pass
@@ -179,7 +179,20 @@ def body_E1(ctx):
         return d
 
     applicable = True
-    if kind == "message":
+    if dev == "not-encodable-nested":
+        # an untyped message (no declared fields) whose list/dict value hides something JSON cannot encode
+        if kind == "message":
+            log_message("c14:untyped", items=[1, {"deep": Unencodable()}])
+        elif kind == "action-ok":
+            with start_action(action_type="c14:untyped", cfg={"k": [Unencodable()]}):
+                pass
+        elif kind == "nested":
+            with AT(i=1, s=None) as a:
+                log_message("c14:untyped", blob=b"\xff\xfe")  # bytes that are not UTF-8
+                a.add_success_fields(n=0)
+        else:
+            applicable = False
+    elif kind == "message":
         if dev == "non-str-key":
             applicable = False
         else:
@@ -331,7 +344,7 @@ OBLIGATIONS = [
        bounds={"quick": "<= 3 declared fields each present/absent; one of them (every choice) carries an arbitrary value over int|str|float(non-NaN)|bool|None, the others a conforming constant; type field correct or any text of length <= 3; status correct/bogus; one undeclared key; the three reserved keys; 4 serializers (message, action start/success/failure)"}),
     Ob("E1", E1, body_E1, "X", desc="library-emitted typed messages validate; each single deviation is reported; unflushed tracebacks fail first", functions=["MemoryLogger.write", "MemoryLogger._validate_message", "MemoryLogger.validate", "MemoryLogger.flushTracebacks", "check_for_errors", "MessageType.log", "ActionType.__call__"],
        timeout={"quick": 100, "thorough": 300}, twin=[{"twin_label": "deviation-nested"}],
-       bounds={"quick": "3 logger histories (fresh / validated and reset / validated twice and reset) x 6 logging scenarios x 7 deviation kinds (inapplicable ones skipped)"}),
+       bounds={"quick": "3 logger histories (fresh / validated and reset / validated twice and reset) x 6 logging scenarios x 8 deviation kinds (incl. a non-encodable value nested inside a list/dict, non-UTF-8 bytes) (inapplicable ones skipped)"}),
     Ob("E2", E2, body_E2, "X", desc="capture_logging / validate_logging on real unittest.TestCase methods: default logger restored for 7 outcomes", functions=["capture_logging", "validate_logging", "swap_logger", "check_for_errors"],
        timeout={"quick": 100, "thorough": 300}, bounds={"quick": "7 test outcomes (pass, fail, error, skip, error in the assertion callback, invalid logging, unflushed traceback) x 2 decorators"}),
 ]
